@@ -16,7 +16,7 @@
 
 using namespace BitSerializer;
 
-struct Op { std::string kind; std::string key; long long ikey = 0; std::string type; int count = 0; int nsub = 0; std::vector<std::string> vals; };
+struct Op { std::string kind; std::string key; long long ikey = 0; unsigned long long ukey = 0; std::string type; int count = 0; int nsub = 0; std::vector<std::string> vals; };
 struct Program { std::vector<Op> ops; };
 struct Log { std::string js = "["; void add(const std::string& rec) { if (js.size() > 1) js += ","; js += rec; } std::string done() const { return js + "]"; } };
 
@@ -134,8 +134,15 @@ struct Scripted {
 			while (i < end) {
 				const Op& op = prog->ops[i];
 				if (op.kind == "G") { log->add(execGet(archive, op.key, op.type, op.vals, gFresh)); ++i; }
-				else if (op.kind == "Gi") {
-					if constexpr (A::archive_type == ArchiveType::MsgPack) log->add(execGet(archive, static_cast<int64_t>(op.ikey), op.type, op.vals, gFresh)); else log->add("{\"error\":\"int key\"}");
+				else if (op.kind == "Gi" || op.kind == "Gu" || op.kind == "Gh" || op.kind == "Gb" || op.kind == "Gw") {
+					// integer keys addressed with different C++ key types: int64_t, uint64_t, uint16_t, int8_t, uint32_t
+					if constexpr (A::archive_type == ArchiveType::MsgPack) {
+						if (op.kind == "Gi") log->add(execGet(archive, static_cast<int64_t>(op.ikey), op.type, op.vals, gFresh));
+						else if (op.kind == "Gu") log->add(execGet(archive, static_cast<uint64_t>(op.ukey), op.type, op.vals, gFresh));
+						else if (op.kind == "Gh") log->add(execGet(archive, static_cast<uint16_t>(op.ukey), op.type, op.vals, gFresh));
+						else if (op.kind == "Gw") log->add(execGet(archive, static_cast<uint32_t>(op.ukey), op.type, op.vals, gFresh));
+						else log->add(execGet(archive, static_cast<int8_t>(op.ikey), op.type, op.vals, gFresh));
+					} else log->add("{\"error\":\"int key\"}");
 					++i;
 				}
 				else if (op.kind == "O") {
@@ -209,7 +216,8 @@ static Program parseProgram(const std::string& s) {
 		while (q <= tok.size()) { size_t c = tok.find(':', q); if (c == std::string::npos) c = tok.size(); f.push_back(tok.substr(q, c - q)); q = c + 1; }
 		Op op; op.kind = f[0];
 		if (op.kind == "G") { op.key = vh::unhex(f[1]); op.type = f[2]; if (f.size() > 3 && !f[3].empty()) { size_t q2 = 0; while (q2 <= f[3].size()) { size_t c2 = f[3].find(',', q2); if (c2 == std::string::npos) c2 = f[3].size(); op.vals.push_back(f[3].substr(q2, c2 - q2)); q2 = c2 + 1; } } }
-		else if (op.kind == "Gi") { op.ikey = strtoll(f[1].c_str(), nullptr, 10); op.type = f[2]; }
+		else if (op.kind == "Gi" || op.kind == "Gb") { op.ikey = strtoll(f[1].c_str(), nullptr, 10); op.type = f[2]; }
+		else if (op.kind == "Gu" || op.kind == "Gh" || op.kind == "Gw") { op.ukey = strtoull(f[1].c_str(), nullptr, 10); op.type = f[2]; }
 		else if (op.kind == "O" || op.kind == "AO") { op.key = vh::unhex(f[1]); op.nsub = atoi(f[2].c_str()); }
 		else if (op.kind == "A") { op.key = vh::unhex(f[1]); op.count = atoi(f[2].c_str()); op.type = f[3]; }
 		p.ops.push_back(op);
